@@ -167,6 +167,22 @@ fn utf8_case(bytes: &[u8], rep: &mut Report) -> bool {
         rep.violation("C12:utf8-decision", &format!("bytes {:02x?}: std says {:?}, CSliceRef -> &str says {:?}", bytes, want.map(|_| "ok"), got.map(|_| "ok")), &format!("{:02x?}", bytes));
         return false;
     }
+    if let Ok(w) = want {
+        // the unchecked conversions and Display must give back exactly the string that went in
+        let a = unsafe { CSliceRef::from(w).into_str() };
+        let mut own = bytes.to_vec();
+        let op = own.as_ptr();
+        let b = unsafe { CSliceMut::from(&mut own[..]).into_str() };
+        if (a.as_ptr(), a.len()) != (w.as_ptr(), w.len()) || (b.as_ptr(), b.len()) != (op, bytes.len()) {
+            rep.violation("C12:str-roundtrip", &format!("into_str of {:?}: got {:?} / {:?}", w, a, b), &format!("{:02x?}", bytes));
+            return false;
+        }
+        let c = unsafe { CSliceMut::from(&mut own[..]).into_mut_str() };
+        if (c.as_ptr(), c.len()) != (op, bytes.len()) {
+            rep.violation("C12:str-roundtrip", &format!("into_mut_str of {:?}", w), &format!("{:02x?}", bytes));
+            return false;
+        }
+    }
     true
 }
 
@@ -185,7 +201,7 @@ fn utf8_mut_case(bytes: &[u8], rep: &mut Report) {
 
 fn strings(rng: &mut Rng, rep: &mut Report, full3: bool, args: &Args) {
     // valid strings: same bytes, same address
-    for s in ["", "a", "hello", "é", "€uro", "😀 mixed é€", "\0nul\0inside"] {
+    for s in ["", "a", "hello", "é", "€uro", "😀 mixed é€", "\0nul\0inside", "\0", "ends with nul\0", "two\0\0", " lead", "trail ", "line\n", "\u{feff}bom", "tab\t", "é\0"] {
         let c = CSliceRef::from(s);
         let c2 = CSliceRef::from_str(s);
         if c.as_ptr() != s.as_ptr() || c.len() != s.len() || c2.as_ptr() != s.as_ptr() || c2.len() != s.len() {
